@@ -205,6 +205,35 @@ func runBpCase(out *ndjson, c bpCase) {
 			w.WaitUntilShutdown(context.Background())
 		}()
 	}
+	// ValidateBlockConsensus is a function of its arguments: the same call on a node that has just validated GENUINE proofs of this
+	// height (every member's COMMIT signature for this block and for the other block, view 3 as in the case) must answer the same
+	// (seeded change R08: signatures remembered per height and sender, not per signed content)
+	resultWarm := "err"
+	func() {
+		defer func() {
+			if r := recover(); r != nil {
+				resultWarm = "panic"
+			}
+		}()
+		wn := cl.nodes[1]
+		savedH, savedWH, savedWE := cl.heightGiven, cl.wrongHeightAsked, cl.wrongEpochAsked
+		cl.heightGiven = nil
+		for _, wb := range []string{body, "other"} {
+			wrf := refD{ht: protocol.LEAN_HELIX_COMMIT, inst: clusterInstance, h: bpHeight, v: 3, hash: hashOfBody(wb)}
+			var wnodes []*protocol.SenderSignatureBuilder
+			for i := 0; i < cl.nMembers; i++ {
+				wnodes = append(wnodes, &protocol.SenderSignatureBuilder{MemberId: cl.ids[i], Signature: cl.ring.sign(cl.ids[i], wrf.h, wrf.builder().Build().Raw())})
+			}
+			cl.ring.share(cl.ids[0], wrf.h, seedOf(prevProof))
+			wproof := (&protocol.BlockProofBuilder{BlockRef: wrf.builder(), Nodes: wnodes, RandomSeedSignature: cl.ring.aggregateSig(wrf.h, seedOf(prevProof))}).Build().Raw()
+			wn.worker.ValidateBlockConsensus(context.Background(), &vBlock{height: bpHeight, body: wb}, wproof, prevBlock, prevProof, false)
+		}
+		cl.heightGiven = savedH
+		if wn.worker.ValidateBlockConsensus(context.Background(), blk, proof, prevBlock, givenPrev, c.soft) == nil {
+			resultWarm = "ok"
+		}
+		cl.wrongHeightAsked, cl.wrongEpochAsked = savedWH, savedWE
+	}()
 	ids := "ok"
 	func() {
 		defer func() {
@@ -237,7 +266,7 @@ func runBpCase(out *ndjson, c bpCase) {
 	if c.soft {
 		mode = "soft"
 	}
-	out.emit(obj{"com": coms, "w": w, "proof": pa, "blk": blkAbs, "mode": mode, "result": result, "result_main": resultMain, "ids": ids, "canon": canon, "wrong_epoch": cl.wrongEpochAsked, "wrong_height": cl.wrongHeightAsked, "case": c.desc()})
+	out.emit(obj{"com": coms, "w": w, "proof": pa, "blk": blkAbs, "mode": mode, "result": result, "result_main": resultMain, "result_warm": resultWarm, "ids": ids, "canon": canon, "wrong_epoch": cl.wrongEpochAsked, "wrong_height": cl.wrongHeightAsked, "case": c.desc()})
 }
 
 func cmdBlockProof(args []string) int {
